@@ -7,3 +7,7 @@ pub mod a;
 pub mod b;
 pub mod c;
 pub mod types;
+
+// Source text that lives in a file WITHOUT the `.rs` extension (pulled in by `include!`): it is
+// part of the crate all the same, and an edit there must invalidate cached docs like any other.
+include!("extra.inc");
